@@ -275,7 +275,7 @@ extract_slice_indices (PyObject* index, size_t& start, size_t& end,
         {
             boost::python::throw_error_already_set();
         }
-        if (s < 0 || e < -1 || sl < 0)
+        if (s < -1 || e < -1 || sl < 0)
         {
             throw std::domain_error
                   ("Slice extraction produced invalid start, end, or length indices");
